@@ -19,12 +19,15 @@ func parseLoadFile94(reader io.Reader, coresize Address) (WarriorData, error) {
 
 	lineNum := 0
 	breader := bufio.NewReader(reader)
-	for {
-		// empty lines and last lines without newlines seem to be missed
-		// should something else be used? or are these not worth handling?
+	atEOF := false
+	for !atEOF {
+		// a last line without a newline arrives together with the error
 		raw_line, err := breader.ReadString('\n')
 		if err != nil {
-			break
+			if len(raw_line) == 0 {
+				break
+			}
+			atEOF = true
 		}
 		lineNum++
 
@@ -275,12 +278,15 @@ func parseLoadFile88(reader io.Reader, coresize Address) (WarriorData, error) {
 
 	lineNum := 0
 	breader := bufio.NewReader(reader)
-	for {
-		// empty lines and last lines without newlines seem to be missed
-		// should something else be used? or are these not worth handling?
+	atEOF := false
+	for !atEOF {
+		// a last line without a newline arrives together with the error
 		raw_line, err := breader.ReadString('\n')
 		if err != nil {
-			break
+			if len(raw_line) == 0 {
+				break
+			}
+			atEOF = true
 		}
 		lineNum++
 
